@@ -3,6 +3,7 @@ package props
 import (
 	"context"
 	"fmt"
+	"sort"
 	"strings"
 	"sync"
 	"time"
@@ -21,6 +22,9 @@ func init() { Registry["C10"] = runC10 }
 //	add:<h>:<pub> | run | waitrunning | rh | rhx<n> (n concurrent RunHandlers) | started:<h> | stop:<h> | waitstopped:<h>
 //	probe:<h> | cancel | run2 | gate:<h> (park RunHandlers right after Started(h) closes, call Stop/Stopped there)
 //	holdsub:<h> (the Subscribe call of h blocks until released) | release | slowsub (Subscribe calls take 3 ms)
+//	rhfresh (RunHandlers with a context of its own instead of the Run context) | close (Router.Close)
+type c10CtxKind struct{}
+
 type c10Prog struct {
 	Class string
 	Ops   []string
@@ -40,6 +44,14 @@ func c10Programs(c *Ctx) []c10Prog {
 		{"second-run-during-startup", strings.Fields("add:a:p1 add:b:p2 holdsub:a run run2 release waitrunning probe:a probe:b cancel")},
 		{"publish-right-after-running", strings.Fields("add:a:p1 add:b:p2 add:c:p3 run waitrunning probe:c probe:b probe:a cancel")},
 		{"rh-before-run", strings.Fields("add:a:p1 rh run waitrunning probe:a cancel")},
+		{"close", strings.Fields("add:a:p1 add:b:p2 run waitrunning started:a started:b probe:a close")},
+		{"close", strings.Fields("add:a:p1 run waitrunning add:b:p2 rhfresh started:a started:b stop:a waitstopped:a probe:b close")},
+		{"close", strings.Fields("run waitrunning add:a:p1 rh started:a close")},
+		// a router started without handlers: the first handler arrives later, possibly after the Run context was cancelled
+		{"empty-run", strings.Fields("run waitrunning add:a:p1 rh started:a probe:a stop:a waitstopped:a")},
+		{"empty-run", strings.Fields("run waitrunning cancel add:a:p1 rh started:a")},
+		{"empty-run", strings.Fields("run waitrunning cancel add:a:p1 add:b:p2 rhfresh started:a started:b probe:a stop:a waitstopped:a probe:b stop:b waitstopped:b")},
+		{"empty-run", strings.Fields("run waitrunning add:a:p1 rhfresh started:a cancel probe:a add:b:p2 rh started:b stop:a waitstopped:a")},
 	}
 	n := c.Pick(20, 3000)
 	for i := 0; i < n; i++ {
@@ -49,6 +61,9 @@ func c10Programs(c *Ctx) []c10Prog {
 			ops = append(ops, "slowsub")
 		}
 		k := 1 + c.Rng.Intn(len(hs))
+		if c.Rng.Intn(6) == 0 {
+			k = 0 // Run without handlers
+		}
 		for _, h := range hs[:k] {
 			ops = append(ops, fmt.Sprintf("add:%s:p%d", h, 1+c.Rng.Intn(2)))
 		}
@@ -57,7 +72,11 @@ func c10Programs(c *Ctx) []c10Prog {
 			ops = append(ops, fmt.Sprintf("add:%s:p%d", h, 1+c.Rng.Intn(3)))
 		}
 		if k < len(hs) {
-			ops = append(ops, fmt.Sprintf("rhx%d", 1+c.Rng.Intn(4)))
+			if c.Rng.Intn(4) == 0 {
+				ops = append(ops, "rhfresh")
+			} else {
+				ops = append(ops, fmt.Sprintf("rhx%d", 1+c.Rng.Intn(4)))
+			}
 		}
 		for _, h := range hs {
 			ops = append(ops, "started:"+h)
@@ -78,7 +97,11 @@ func c10Programs(c *Ctx) []c10Prog {
 			}
 		}
 		if len(stopped) < len(hs) {
-			ops = append(ops, "cancel")
+			if c.Rng.Intn(3) == 0 {
+				ops = append(ops, "close")
+			} else {
+				ops = append(ops, "cancel")
+			}
 		}
 		ps = append(ps, c10Prog{"random", ops})
 	}
@@ -114,9 +137,13 @@ func c10Run(r *tr.Run, p c10Prog) {
 			g.Release()
 		}
 	}()
-	ctx, cancel := context.WithCancel(context.Background())
+	ctx, cancel := context.WithCancel(context.WithValue(context.Background(), c10CtxKind{}, "run"))
 	defer cancel()
+	freshCtx, cancelFresh := context.WithCancel(context.WithValue(context.Background(), c10CtxKind{}, "fresh"))
+	defer cancelFresh()
 	runDone := make(chan struct{})
+	var endMu sync.Mutex
+	quiesced := false
 	nruns := 0
 	seq := 0
 	var bg sync.WaitGroup
@@ -135,7 +162,13 @@ func c10Run(r *tr.Run, p c10Prog) {
 			entered[h] = ent
 			var once sync.Once
 			s.OnSubscribe = func(string) {
-				r.Emit("subscribed", "h", h)
+				kind := "fresh"
+				if sp := s.Subs(""); len(sp) > 0 {
+					if v, _ := sp[len(sp)-1].Ctx.Value(c10CtxKind{}).(string); v != "" {
+						kind = v
+					}
+				}
+				r.Emit("subscribed", "h", h, "ctx", kind)
 				once.Do(func() { close(ent) })
 				mu.Lock()
 				hc := hold[h]
@@ -211,6 +244,11 @@ func c10Run(r *tr.Run, p c10Prog) {
 				go func() {
 					defer close(runDone)
 					err := router.Run(ctx)
+					endMu.Lock()
+					defer endMu.Unlock()
+					if quiesced { // the harness' own clean-up ended the router
+						return
+					}
 					if router.IsClosed() {
 						r.Emit("closedseen")
 					}
@@ -248,7 +286,11 @@ func c10Run(r *tr.Run, p c10Prog) {
 				r.Emit("hung", "what", "Running() never closed")
 				return
 			}
-		case f[0] == "rh" || strings.HasPrefix(f[0], "rhx"):
+		case f[0] == "rh" || f[0] == "rhfresh" || strings.HasPrefix(f[0], "rhx"):
+			rhCtx := ctx
+			if f[0] == "rhfresh" {
+				rhCtx = freshCtx
+			}
 			n := 1
 			if strings.HasPrefix(f[0], "rhx") {
 				fmt.Sscanf(f[0], "rhx%d", &n)
@@ -264,7 +306,7 @@ func c10Run(r *tr.Run, p c10Prog) {
 					defer wg.Done()
 					<-start
 					var err error
-					pn, v := Guarded(func() { err = router.RunHandlers(ctx) })
+					pn, v := Guarded(func() { err = router.RunHandlers(rhCtx) })
 					if pn {
 						r.Emit("panic", "where", "RunHandlers", "val", v)
 						return
@@ -328,6 +370,15 @@ func c10Run(r *tr.Run, p c10Prog) {
 		case f[0] == "cancel":
 			r.Emit("cancelrun")
 			cancel()
+		case f[0] == "close":
+			r.Emit("closecall")
+			var err error
+			pn, v := Guarded(func() { err = router.Close() })
+			if pn {
+				r.Emit("panic", "where", "Close", "val", v)
+				return
+			}
+			r.Emit("closeret", "ok", err == nil)
 		}
 	}
 	bg.Wait()
@@ -337,7 +388,41 @@ func c10Run(r *tr.Run, p c10Prog) {
 		case <-time.After(2 * time.Second):
 		}
 	}
-	r.Emit("quiesce")
+	// once the router has ended, the Stopped() channel of every started handler is closed (shortly after Run returned)
+	unstopped := []string{}
+	select {
+	case <-runDone:
+		hs := []string{}
+		for h := range handles {
+			hs = append(hs, h)
+		}
+		sort.Strings(hs)
+		deadline := make(chan struct{})
+		tm := time.AfterFunc(3*time.Second, func() { close(deadline) })
+		defer tm.Stop()
+		for _, h := range hs {
+			select {
+			case <-handles[h].Started():
+			default:
+				continue
+			}
+			st := handles[h].Stopped()
+			if st == nil {
+				unstopped = append(unstopped, h)
+				continue
+			}
+			select {
+			case <-st:
+			case <-deadline:
+				unstopped = append(unstopped, h)
+			}
+		}
+	default:
+	}
+	endMu.Lock()
+	r.Emit("quiesce", "unstopped", unstopped)
+	quiesced = true
+	endMu.Unlock()
 	// clean up whatever is still running
 	cancel()
 	_ = router.Close()
